@@ -39,6 +39,10 @@ pub(crate) struct Env {
     /// != 0: `Shared::wake_blocked_futures` is replaced by its frame contract (counts the call, touches nothing);
     /// the function itself is proved by the c03.blocked.* obligations
     pub wbf_skip: u32,
+    /// == 0 (default): `impl Drop for Shared` is cut (returns at once) - harnesses that are not about teardown keep an
+    /// extra handle alive, so the last-handle teardown is unreachable in them and stays out of their formulas;
+    /// the teardown itself is the subject of c12.shared.* / c18.build.* which switch it on
+    pub shared_drop_real: u32,
     pub wbf_calls: u32,
     /// io_uring_params as 30 u32 words (120 bytes)
     pub setup_in: [u32; 30],
@@ -104,6 +108,7 @@ pub(crate) static mut E: Env = Env {
     env_new_u16: 0,
     reg_fds0: 0,
     wbf_skip: 0,
+    shared_drop_real: 0,
     wbf_calls: 0,
     setup_in: [0; 30],
     munmap_bad: 0,
@@ -266,6 +271,12 @@ pub(crate) fn on_wake_blocked_futures() -> bool {
         E.wbf_calls += 1;
         E.wbf_skip != 0
     }
+}
+pub(crate) fn real_shared_drop() {
+    unsafe { E.shared_drop_real = 1 };
+}
+pub(crate) fn shared_drop_cut() -> bool {
+    unsafe { E.shared_drop_real == 0 }
 }
 pub(crate) fn skip_wake_blocked_futures() {
     unsafe { E.wbf_skip = 1 };
